@@ -9,7 +9,7 @@ from props.nullable import unguarded_derefs
 LEVEL = "other"
 
 RT = {"m_mod_t *", "m_ctx_t *", "ev_src_t *", "ps_priv_t *", "evt_priv_t *", "const m_mod_t *"}
-FRESH = {"m_mem_new", "create_src", "register_ctx_src", "new_evt", "alloc_ps_msg"}
+FRESH = frozenset({"m_mem_new", "create_src", "register_ctx_src", "new_evt", "alloc_ps_msg"})
 CONSUMERS = {"m_map_put": 2, "m_bst_insert": 1, "m_queue_enqueue": 1, "m_list_insert": 1, "m_stack_push": 1, "pthread_setspecific": 1,
              "push_evt": 1}
 RELEASE = {"m_mem_unref": 0, "m_mem_unrefp": 0}
@@ -152,8 +152,8 @@ def run(ck, P):
     nown = 0
     for f in core:
         for ev in f.events():
-            if ev.kind in ("decl", "assign") and ev.rhs is not None and strip(ev.rhs)["k"] == "call" and strip(ev.rhs).get("callee") in FRESH \
-                    and strip(ev.lhs)["k"] == "var":
+            if ev.kind in ("decl", "assign") and ev.rhs is not None and strip(ev.rhs)["k"] == "call" and \
+                    strip(ev.rhs).get("callee") in (FRESH | {"m_mem_ref"}) and strip(ev.lhs)["k"] == "var":
                 var = S(ev.lhs)
                 nown += 1
                 ck.analysed(f)
@@ -308,7 +308,12 @@ def run(ck, P):
             if u.callee == "m_mem_unrefp":
                 continue       # pointer is set to NULL by unrefp
             if x in locked:
-                continue       # this function's own temporary reference (M_MEM_LOCK): the object stays owned by someone else
+                # this function's own temporary reference (M_MEM_LOCK): the object stays owned by someone else — unless a user callback ran
+                # under the lock, which may have dropped every other reference (deregistration inside the hook)
+                refs = [e for e in f.calls("m_mem_ref") if S(e.args[0]) == x]
+                cb_between = any(X.kills_state(e) for r in refs for e in rules.events_between(f, r, u))
+                if not cb_between:
+                    continue
             nu += 1
             ck.analysed(f)
             dead = {x} | derived.get(x, set())
@@ -333,6 +338,16 @@ def run(ck, P):
                 e = ev.e if ev.kind != "decl" else ev.rhs
                 if e is None:
                     continue
+                if ev.kind == "call" and ev.callee not in ("m_mem_ref", "m_mem_unref", "m_mem_unrefp"):
+                    # handing the released object to a callee that dereferences that parameter
+                    for i, a_ in enumerate(ev.args):
+                        sa_ = strip(a_)
+                        if sa_ is not None and sa_["k"] == "var" and sa_["name"] in dead:
+                            for t_ in cg.callees_of_event(ev):
+                                if isinstance(t_, Func) and i < len(t_.params) and _derefs_param(t_, t_.params[i]["name"]):
+                                    bad = (ev, sa_["name"])
+                if bad:
+                    break
                 for nnode in walk(e):
                     b = None
                     if nnode.get("k") == "member" and nnode["arrow"]:
@@ -411,3 +426,16 @@ def _tail(lv):
 def _expr_guarded(e, target):
     from props.c02 import _guarded_in_expr
     return _guarded_in_expr(e, target)
+
+
+def _derefs_param(f, name):
+    for ev in f.events():
+        e = ev.e if ev.kind != "decl" else ev.rhs
+        if e is None:
+            continue
+        for n in walk(e):
+            if n.get("k") == "member" and n["arrow"] and strip(n["base"]) is not None and strip(n["base"]).get("k") == "var" and strip(n["base"])["name"] == name:
+                return True
+            if n.get("k") == "un" and n["op"] == "*" and strip(n["e"]) is not None and strip(n["e"]).get("k") == "var" and strip(n["e"])["name"] == name:
+                return True
+    return False
